@@ -42,7 +42,8 @@ ASSUMPTIONS = ["an item that disappears without being handed to a digester is to
                "ages exactly equal to the retention period are not generated",
                "digesters do not re-enter the lysosome"]
 EXPECT_PROBES = ("auto_digest_threshold_reached", "ingest_at_capacity", "digester_raised", "expired_by_autophagy",
-                 "toxic_callback", "daemon_pruned", "threads_run", "preempted_while_holding_a_lock")
+                 "toxic_callback", "daemon_pruned", "threads_run", "preempted_while_holding_a_lock",
+                 "field_equal_twin_ingested")
 
 TYPES = {"misfolded": WasteType.MISFOLDED_PROTEIN, "expired": WasteType.EXPIRED_CACHE,
          "failed_op": WasteType.FAILED_OPERATION, "orphaned": WasteType.ORPHANED_RESOURCE,
@@ -52,7 +53,7 @@ SRC = None
 
 def _op(rng, ret_h):
     kind = weighted(rng, [(5, "ingest"), (1.5, "ingest_error"), (2, "ingest_sensitive"), (2.5, "digest"),
-                          (1.2, "autophagy"), (0.8, "daemon"), (1.2, "clock")])
+                          (1.2, "autophagy"), (0.8, "daemon"), (1.2, "clock"), (1.0, "twin")])
     bad = rng.random() < 0.2
     if kind == "ingest":
         return ["ingest", rng.choice(list(TYPES)), bad]
@@ -69,11 +70,19 @@ def _op(rng, ret_h):
 
 def gen(rng, tier, i):
     cfg = {"max_q": rng.choice([2, 2, 3, 4, 5, 8]), "auto": rng.choice([1, 2, 3, 4, 5, 8, 8]),
-           "ret_h": rng.choice([1.0, 24.0])}
+           "ret_h": rng.choice([1.0, 24.0]), "silent": rng.random() < 0.8}
     threads = rng.random() < 0.3
     if threads:
         tasks = [[_op(rng, cfg["ret_h"]) for _ in range(rng.randint(1, 3))] for _ in range(2)]
         pre = [_op(rng, cfg["ret_h"]) for _ in range(rng.randint(0, 3))]
+        if rng.random() < 0.4:
+            # in-flight state first: a queue at capacity that cannot auto-digest, then an emergency ingest racing a digest
+            cfg["max_q"], cfg["auto"] = rng.choice([2, 3, 4]), 8
+            pre = [["ingest", rng.choice(list(TYPES)), rng.random() < 0.15] for _ in range(cfg["max_q"])]
+            tasks = [[["digest", rng.choice([None, 1, 2])]] + [_op(rng, cfg["ret_h"]) for _ in range(rng.randint(0, 1))],
+                     [["ingest", rng.choice(list(TYPES)), False] for _ in range(rng.randint(1, 2))]]
+            if rng.random() < 0.5:
+                tasks.reverse()
         strat = dict(weighted(rng, [(1, {"kind": "serial"}), (2, {"kind": "uniform"}), (3, {"kind": "sticky", "p": 0.8}),
                                     (3, {"kind": "sticky", "p": 0.95}), (2, {"kind": "pct", "d": 2, "est": 200}),
                                     (2, {"kind": "lock_biased", "k": 4})]))
@@ -91,6 +100,8 @@ def simplify(plan):
         for v in vals:
             if v < cfg[key]:
                 yield {**plan, "config": {**cfg, key: v}}
+    if cfg.get("silent") is False:
+        yield {**plan, "config": {**cfg, "silent": True}}
     for lst_key in ("ops", "pre"):
         for j, op in enumerate(plan.get(lst_key) or []):
             if op[0].startswith("ingest") and op[-1] is True:
@@ -105,14 +116,16 @@ class World:
     def __init__(self, k, cfg):
         self.k, self.cfg = k, cfg
         self.handled = []            # (id, task, role) in the order fakes were called
-        self.handled_ids = set()
+        self.handled_count = {}      # id -> how many times a digester / the toxic callback was handed it
+        self.last_waste = None       # (id, Waste) of the most recent explicit ingest, for field-equal twins
         self.items = {}              # id -> dict(type, created, bad, sensitive)
         self.next_id = 0
         self.toxic_seen = []
         self.expired_total = 0
         digesters = {t: self._mk_digester(t) for n, t in TYPES.items() if n != "toxic"}
         self.lys = Lysosome(max_queue_size=cfg["max_q"], auto_digest_threshold=cfg["auto"],
-                            retention_hours=cfg["ret_h"], digesters=digesters, on_toxic=self._on_toxic, silent=True)
+                            retention_hours=cfg["ret_h"], digesters=digesters, on_toxic=self._on_toxic,
+                            silent=cfg.get("silent", True))
         self.builtin = {}
         self.daemon = AutophagyDaemon(histone_store=HistoneStore(silent=True) if _histone_silent() else HistoneStore(),
                                       lysosome=self.lys, summarizer=self._summarise, min_tokens_for_pruning=1,
@@ -137,9 +150,11 @@ class World:
 
     def _note(self, wid, role):
         self.k.ev("handled", [wid, role])
-        if wid in self.handled_ids:
-            self.k.violation("conservation", "handled_twice", role, f"item {wid} ({self.items[wid]['type']}) reached a digester twice")
-        self.handled_ids.add(wid)
+        n = self.handled_count.get(wid, 0) + 1
+        self.handled_count[wid] = n
+        if n > self.items[wid]["n"]:
+            self.k.violation("conservation", "handled_twice", role,
+                             f"item {wid} ({self.items[wid]['type']}) reached a digester {n} times, ingested {self.items[wid]['n']}x")
         self.handled.append((wid, self._task(), role))
 
     def _mk_digester(self, wtype):
@@ -176,7 +191,7 @@ class World:
     def new_item(self, typ, bad, sensitive=False):
         wid = self.next_id
         self.next_id += 1
-        self.items[wid] = {"type": typ, "created": CLOCK.now, "bad": bad, "sensitive": sensitive, "in": False}
+        self.items[wid] = {"type": typ, "created": CLOCK.now, "bad": bad, "sensitive": sensitive, "in": False, "n": 0}
         return wid
 
     def size(self):
@@ -203,17 +218,33 @@ def _do(w: World, op):
         if op[1] == "toxic":
             content["secret"] = f"SECRET-{wid}"
         waste = Waste(waste_type=TYPES[op[1]], content=content, source="sim")
+        w.last_waste = (wid, waste)
+        w.items[wid]["n"] += 1
         r = lys.ingest(waste)
         w.items[wid]["in"] = True
         return wid, r
     if name == "ingest_error":
         wid = w.new_item("failed_op", op[1])
+        w.items[wid]["n"] += 1
         r = lys.ingest_error(ValueError(f"boom-{wid}"), source="sim", context={"id": wid})
         w.items[wid]["in"] = True
         return wid, r
     if name == "ingest_sensitive":
         wid = w.new_item("toxic", op[1], sensitive=True)
+        w.items[wid]["n"] += 1
         r = lys.ingest_sensitive({"id": wid, "secret": f"SECRET-{wid}"}, source="sim")
+        w.items[wid]["in"] = True
+        return wid, r
+    if name == "twin":
+        # a distinct Waste object equal to an earlier one in every field (same content, source and timestamp)
+        if w.last_waste is None:
+            return None, None
+        wid, orig = w.last_waste
+        twin = Waste(waste_type=orig.waste_type, content=dict(orig.content), source=orig.source,
+                     created_at=orig.created_at, priority=orig.priority, metadata=dict(orig.metadata))
+        w.k.probe("field_equal_twin_ingested")
+        w.items[wid]["n"] += 1
+        r = lys.ingest(twin)
         w.items[wid]["in"] = True
         return wid, r
     if name == "digest":
@@ -222,6 +253,7 @@ def _do(w: World, op):
         return None, lys.autophagy()
     if name == "daemon":
         wid = w.new_item("expired", op[2])
+        w.items[wid]["n"] += 1
         w.summary_bad = False
         ctx = f"ctx-{wid} " + "x" * 40
         try:
@@ -262,6 +294,7 @@ def _run_seq(plan, k):
     queue = []            # model: ids believed queued (identity), in ingest order
     unknown_gone = 0      # items that vanished unattributed during an at-capacity ingest
     expired_ids = set()
+    expired_copies = {}
     interesting = False
 
     with SeqTracer(k, SRC, 50_000) as tr:
@@ -276,13 +309,13 @@ def _run_seq(plan, k):
             size0 = w.size()
             h0 = len(w.handled)
             n_items0 = w.next_id
-            at_capacity = name.startswith("ingest") or name == "daemon"
-            at_capacity = at_capacity and size0 >= cfg["max_q"]
+            is_ingest = name.startswith("ingest") or name == "daemon" or (name == "twin" and w.last_waste is not None)
+            at_capacity = is_ingest and size0 >= cfg["max_q"]
             if at_capacity:
                 k.probe("ingest_at_capacity")
                 k.fault("queue_full")
                 interesting = True
-            if (name.startswith("ingest") or name == "daemon") and size0 + 1 >= cfg["auto"]:
+            if is_ingest and size0 + 1 >= cfg["auto"]:
                 k.probe("auto_digest_threshold_reached")
                 interesting = True
             now = CLOCK.now
@@ -329,9 +362,10 @@ def _run_seq(plan, k):
                     k.violation("conservation", "autophagy_count_wrong", site,
                                 f"returned {res}, {len(must)} queued items are past retention")
                 removed_by_autophagy = res if isinstance(res, int) else 0
-                for q in may if removed_by_autophagy >= len(may) else must:
+                for q in list(may if removed_by_autophagy >= len(may) else must):
                     queue.remove(q)
                     expired_ids.add(q)
+                    expired_copies[q] = expired_copies.get(q, 0) + 1
                 if removed_by_autophagy:
                     k.probe("expired_by_autophagy")
                 w.expired_total += removed_by_autophagy
@@ -365,17 +399,34 @@ def _run_seq(plan, k):
             if _secret_leak(lys.get_recycled()):
                 k.violation("toxic", "recycled_secret", "recycling_bin")
             for t in set(w.toxic_seen):
-                if w.toxic_seen.count(t) > 1:
+                if w.toxic_seen.count(t) > w.items[t]["n"]:
                     k.violation("toxic", "toxic_callback_twice", site, f"item {t}")
 
     # ---- after the final flush: nothing may remain, every sensitive item reached the callback once
     if w.size() != 0:
         k.violation("conservation", "flush_left_items", "digest", f"{w.size()} items remain after digest()")
     for wid, it in w.items.items():
-        if it["sensitive"] and it["in"] and wid not in expired_ids and w.toxic_seen.count(wid) != 1:
-            k.violation("toxic", "toxic_count", "on_toxic", f"sensitive item {wid} reached the toxic callback "
-                        f"{w.toxic_seen.count(wid)} times")
+        want = it["n"] - expired_copies.get(wid, 0)
+        if it["sensitive"] and it["in"] and unknown_gone == 0 and w.toxic_seen.count(wid) != want:
+            k.violation("toxic", "toxic_count", "on_toxic", f"sensitive item {wid} (ingested {it['n']}x, expired "
+                        f"{expired_copies.get(wid, 0)}x) reached the toxic callback {w.toxic_seen.count(wid)} times")
+        elif it["sensitive"] and it["in"] and w.toxic_seen.count(wid) > want:
+            k.violation("toxic", "toxic_count", "on_toxic", f"sensitive item {wid} reached the toxic callback too often")
+    _check_statistics(k, w)
     k.nontrivial = interesting
+
+
+def _check_statistics(k, w):
+    """'digested (counted)': at quiescence the public counters agree with what the fakes saw."""
+    st = w.lys.get_statistics()
+    ingested = sum(it["n"] for it in w.items.values() if it["in"])
+    ok_digests = sum(1 for (wid, _t, _r) in w.handled if not w.items[wid]["bad"])
+    if st.get("total_ingested") is not None and st["total_ingested"] != ingested:
+        k.violation("conservation", "statistic_total_ingested", "get_statistics",
+                    f"reported {st['total_ingested']}, ingested {ingested}")
+    if st.get("total_digested") is not None and st["total_digested"] != ok_digests:
+        k.violation("conservation", "statistic_total_digested", "get_statistics",
+                    f"reported {st['total_digested']}, {ok_digests} items were digested without a digester fault")
 
 
 # =========================================================================== threads family
@@ -473,8 +524,8 @@ def _run_threads(plan, k):
         return
     if w.size() != 0:
         k.violation("conservation", "flush_left_items", "digest", f"{w.size()} items remain after digest()")
-    ingested = sum(1 for it in w.items.values() if it["in"])
-    handled = len(w.handled_ids)
+    ingested = sum(it["n"] for it in w.items.values() if it["in"])
+    handled = len(w.handled)
     k.ev("ledger", [ingested, handled, expired])
     if handled + expired < ingested:
         k.violation("conservation", "lost", "threads", f"ingested {ingested}, handled {handled}, expired {expired}")
@@ -482,7 +533,8 @@ def _run_threads(plan, k):
         k.violation("conservation", "materialised", "threads", f"ingested {ingested}, handled {handled}, expired {expired}")
     if _secret_leak(lys.get_recycled()):
         k.violation("toxic", "recycled_secret", "recycling_bin")
+    _check_statistics(k, w)
     for wid, it in w.items.items():
         c = w.toxic_seen.count(wid)
-        if it["sensitive"] and it["in"] and (c > 1 or (c == 0 and expired == 0)):
+        if it["sensitive"] and it["in"] and (c > it["n"] or (c < it["n"] and expired == 0)):
             k.violation("toxic", "toxic_count", "on_toxic", f"sensitive item {wid} reached the toxic callback {c} times")
